@@ -70,6 +70,19 @@ CLAIMED = {
          "Trusts go/ssa, the gc compiler's BCE pass (go build -gcflags=-d=ssa/check_bce/debug=1) and the disposition tables in checker/rules_panic.go (keyed by function; a new site is a violation).", "DESIGN.md 4 C19"),
 }
 
+# rules shared between checks (checker/main.go sharedRules): the borrowing property's level text gets this addendum
+SHARED = {
+ "C01": "Also enforces (shared with C14.R1/R2) that cache and pending entries are clones on the way in and on the way out.",
+ "C03": "Also enforces (shared with C04.R4) that a schema is published only with its transformer list rebuilt, so uniqueness is judged on normalised values after a reopen.",
+ "C15": "Also enforces (shared with C04.R4) that a schema is published only with its transformer list rebuilt.",
+ "C16": "Also enforces (shared with C04.R4) that a schema is published only with its transformer list rebuilt.",
+ "C08": "Also enforces (shared with C10.R5) that the flusher re-checks the context and flushes inside one write-locked section (no check-then-act against Close/Drop).",
+ "C12": "Also enforces (shared with C01.R2) that deletes evict cache and pending entries under every cache/async valuation.",
+ "C13": "Also enforces (shared with C02.R5) that nothing writes through a slice aliasing the live field index.",
+ "C18": "Also enforces (shared with C16.R4) the struct-tag word to constraint-flag table of the pinned release, since descriptors are serialised and compared on Create.",
+ "C19": "Also enforces (shared with C17.R2 and C11.R3) that a schema is published only after a successful control or a corrupted-index verdict, which the index-panic dispositions rely on.",
+}
+
 NOT_BUILT = "check not built yet in this round (planned, see DESIGN.md section 4)"
 
 def main():
@@ -79,6 +92,8 @@ def main():
         pid = p["id"]
         if pid in CLAIMED:
             tech, text, note, ref = CLAIMED[pid]
+            if pid in SHARED:
+                text = text + " " + SHARED[pid]
             checks.append({
                 "property_id": pid,
                 "quick_cmd": f"bin/sodcheck -prop {pid} -tier quick",
